@@ -24,6 +24,7 @@ def run(ctx: common.Ctx):
     probe_extended_slice_refusals(ctx)
     probe_unconsumable_operands(ctx)
     probe_duplicate_in_batch(ctx)
+    probe_cost_raw_refusals(ctx)
     probe_spent_left_operand(ctx)
     corr_arith_operands(ctx)
 
@@ -359,6 +360,46 @@ def probe_duplicate_in_batch(ctx: common.Ctx):
                                         f'the document prints {after[0]!r}', w)
             else:
                 ctx.monitor_failure(c03.SIG_REUSE, f'{w["call"]} was accepted: one token object is now listed twice', w)
+
+
+def probe_cost_raw_refusals(ctx: common.Ctx):
+    """Directed: "an illegal cost combination" / re-inserting a node that lives elsewhere, through the raw setters of a
+    cost (raw_number_per, raw_number_total, raw_currency): every written form of a cost x every raw setter x a donor
+    that is still attached to ANOTHER posting of the same document must be refused with the cost - braces, components,
+    text - and the donor's posting exactly as they were. (The value-level record semantics and the statement order of
+    these setters are C09's model, Cost.v; this is the snapshot monitor of THIS property on the same calls.)"""
+    from harness import gen_docs
+    costs = ['{{10.00 USD}}', '{10.00 USD}', '{{USD}}', '{USD}', '{{10.00}}', '{10.00}', '{1 # 2 USD}', '{{1 # 2 USD}}',
+             '{# 2 USD}', '{1 # USD}', '{}', '{{}}', '{10.00 USD, 2000-01-01, "lot"}', '{*, 10.00 USD}']
+    for cost_text in costs:
+        for attr in ('raw_number_per', 'raw_number_total', 'raw_currency'):
+            text = f'2000-01-01 *\n    Assets:Foo  1 GOOG {cost_text}\n    Assets:Baz  -30.00 USD\n    Assets:Qux  4 EUR\n'
+            f = gen_docs.parse_ok(text, True)
+            if f is None:
+                ctx.count('cost_texts_rejected_by_parser')
+                break
+            txn = f.raw_directives[0]
+            cost = txn.raw_postings[0].cost
+            donor = txn.raw_postings[1].raw_currency if attr == 'raw_currency' else txn.raw_postings[1].raw_number
+            snap = lambda: (gen_docs.print_model(f), [id(t) for t in f.token_store], treewalk_dump(f))
+            before = snap()
+            ctx.count('cost_raw_refusal_probes')
+            w = {'text': text, 'call': f'postings[0].cost.{attr} = <{type(donor).__name__} attached to postings[1]>'}
+            try:
+                setattr(cost, attr, donor)
+            except Exception as x:
+                try:
+                    after = snap()
+                except Exception as y:
+                    ctx.monitor_failure(c03.SIG_ATOMIC, f'{w["call"]} on {cost_text!r} raised {type(x).__name__} and left a document that '
+                                        f'cannot be read ({type(y).__name__})', w)
+                    continue
+                if after != before:
+                    what = [nm for nm, a, b in zip(('printed text', 'token identities', 'tree'), after, before) if a != b]
+                    ctx.monitor_failure(c03.SIG_ATOMIC, f'{w["call"]} on {cost_text!r} raised {type(x).__name__} ({x}) but changed '
+                                        f'{", ".join(what)}: the posting prints {after[0].splitlines()[1]!r}', w)
+            else:
+                ctx.monitor_failure(c03.SIG_REUSE, f'{w["call"]} on {cost_text!r} was accepted: the node now lives in two places', w)
 
 
 def probe_unconsumable_operands(ctx: common.Ctx):
